@@ -3,7 +3,8 @@ EXTENDS Naming
 F(rel, stem, ext) == [rel |-> rel, stem |-> stem, ext |-> ext]
 MCFiles == { F(<<"x.cmake">>, "x", ".cmake"), F(<<"a", "x.cmake">>, "x", ".cmake"),
              F(<<"a", "b", "Y.CMAKE">>, "Y", ".CMAKE"), F(<<"a", "d.e-f.cmake">>, "d.e-f", ".cmake"),
-             F(<<"x.cmake.cmake">>, "x.cmake", ".cmake") }
+             F(<<"x.cmake.cmake">>, "x.cmake", ".cmake"),
+             F(<<"a", "lnk.cmake">>, "lnk", ".cmake") }      \* materialised as a symbolic link to ../x.cmake
 MCSeps == {".", "::", "/", "-"}
 MCPrefixSrcs == {"absent", "cli", "config"}
 MCSpellings == {"name", "trailing", "dot", "abs"}
